@@ -1098,7 +1098,7 @@ class Snapshot:
     self.text = pg.format(value, compact=True)
     self.nodes = sym_nodes(value)
 
-  def diff(self, links=True):
+  def diff_content(self):
     v = self.value
     try:
       j = pg.to_json_str(v) if isinstance(v, pg.Symbolic) else repr(v)
@@ -1106,6 +1106,13 @@ class Snapshot:
       return f'pg.to_json(template) now raises {type(e).__name__}: {e}'
     if j != self.json:
       return f'pg.to_json(template) changed: {self.json[:150]} -> {j[:150]}'
+    return None
+
+  def diff(self, links=True):
+    v = self.value
+    r = self.diff_content()
+    if r:
+      return r
     if not pg.eq(v, self.clone):
       return 'pg.eq(template, clone taken before) is False'
     if pg.format(v, compact=True) != self.text:
@@ -1306,7 +1313,7 @@ def mutants(mv, rnd, per_class=1):
 
 
 def check_template(rec, root, sel, rnd, cap, deep_checks=6, post=None,
-                   sig=None):
+                   sig=None, foreign_checks=1):
   """Checks every clause of C13 on one template (+ optional where filter).
 
   post: model value -> model value prescribed after the bound value specs
@@ -1514,7 +1521,7 @@ def check_template(rec, root, sel, rnd, cap, deep_checks=6, post=None,
                header(root) + f'v = {vsrc}\nd = {dsrc}\nassert pg.eq(pg.materialize('
                f'v, d{where_src(sel)}), {mv_src(mv)})')
 
-    if deep and foreign_ok:
+    if idx < foreign_checks and foreign_ok:
       # encode of values that differ from the decoded one at one place.
       for mcls, mut in mutants(mv, rnd):
         msrc = mv_src(mut)
@@ -1524,11 +1531,15 @@ def check_template(rec, root, sel, rnd, cap, deep_checks=6, post=None,
           t.encode(to_pg(mut))
         except Exception:  # pylint: disable=broad-except
           pass   # refused (or not): the statement only protects the template.
-        df = snap.diff()
+        # (cheap content comparison here; the full comparison incl. parent
+        # links follows under template-unchanged-after-all.)
+        df = snap.diff_content()
         rec.case(f'encode.foreign-value.template-unchanged/{fid}', fkey,
                  df is None, df,
                  wpre + f'x = {msrc}\nj = pg.to_json_str(v)\ntry:\n  t.encode(x)\n'
                  'except Exception:\n  pass\nassert pg.to_json_str(v) == j, v')
+        if df is not None:
+          break
 
   df = snap.diff()
   rec.case(f'template-unchanged-after-all/{sig}', key0, df is None, df,
@@ -1788,7 +1799,8 @@ def drv_decode_encode(tier, seed):
   for root, sel in all_templates(tier, seed):
     try:
       check_template(rec, root, sel, rnd, cap,
-                     deep_checks=2 if tier == 'quick' else 4)
+                     deep_checks=2 if tier == 'quick' else 4,
+                     foreign_checks=1 if tier == 'quick' else 3)
     except Exception as e:  # pylint: disable=broad-except
       rec.case('harness/' + signature(root, sel), (src(root), sel), False,
                f'harness error {type(e).__name__}: {e}', src(root))
@@ -2171,7 +2183,7 @@ def kind_templates(tier, seed):
   for fi, (fam, cs) in enumerate(kind_families()):
     shapes = kind_shapes(cs)
     for si, (shape, mk) in enumerate(shapes):
-      if quick and not (si in (0, 1) or (si + fi + seed) % 3 == 0):
+      if quick and not (si in (0, 1) or (si + 2 * fi + seed) % 7 == 0):
         continue
       yield (assign_names(mk()),
              fam if fam == LIST_VS_EMPTY_DICT else f'{fam}.{shape}')
@@ -2205,10 +2217,11 @@ def drv_candidate_kinds(tier, seed):
   for n, (root, sig) in enumerate(kind_templates(tier, seed)):
     try:
       check_template(rec, root, None, rnd, cap,
-                     deep_checks=2 if tier == 'quick' else 4, sig=sig)
+                     deep_checks=2 if tier == 'quick' else 4, sig=sig,
+                     foreign_checks=1 if tier == 'quick' else 3)
       total = msize(root, None)
-      if (tier != 'quick' or n % 4 == 0) and total <= 40:
-        check_iter(rec, root, None, total, seed, n % 8 == 0, sig=sig)
+      if (tier != 'quick' or n % 5 == 0) and total <= 40:
+        check_iter(rec, root, None, total, seed, n % 10 == 0, sig=sig)
     except Exception as e:  # pylint: disable=broad-except
       rec.case('harness/' + sig, src(root), False,
                f'harness error {type(e).__name__}: {e}', src(root))
@@ -2307,12 +2320,19 @@ def _bind_check(rec, case_id, field, psrc, expect_buildable, tier):
   except Exception as e:  # pylint: disable=broad-except
     rec.case(case_id, code, False, f'unexpected {type(e).__name__}: {e}', wit)
     return
+  bad = _decodes_accepted(v, field, code)
+  rec.case(case_id, code, bad is None, bad, wit)
+
+
+def _decodes_accepted(v, field, code, holder=None):
+  """None if every DNA of template v decodes to a value whose `field` the
+  field's value spec accepts; else a description of the first failure."""
+  holder = holder or H
   try:
     t = pg.template(v)
     spec = t.dna_spec()
     if not t.hyper_primitives:
-      rec.case(case_id, code, True)
-      return
+      return None
     dnas = []
     if spec.space_size != -1 and spec.space_size <= 60:
       dnas = list(spec.iter_dna())
@@ -2320,21 +2340,101 @@ def _bind_check(rec, case_id, field, psrc, expect_buildable, tier):
       r = rng(0, 'c13-bind' + code)
       dnas = [spec.first_dna()] + [pg.random_dna(spec, r) for _ in range(12)]
   except Exception as e:  # pylint: disable=broad-except
-    rec.case(case_id, code, False, f'unexpected {type(e).__name__}: {e}', wit)
-    return
-  fspec = H.__schema__[field].value
-  bad = None
+    return f'unexpected {type(e).__name__}: {e}'
+  fspec = holder.__schema__[field].value
   for d in dnas:
     try:
       x = t.decode(d)
-      val = x.sym_getattr(field)
+      val = x.sym_getattr(field) if isinstance(x, pg.Object) else x[
+          0 if isinstance(x, list) else field]
       fspec.apply(pg.clone(val, deep=True) if isinstance(val, pg.Symbolic) else val)
       if pg.contains(x, type=pg.hyper.HyperValue):
-        bad = f'{d!r}: placeholder left'
+        return f'{d!r}: placeholder left'
     except Exception as e:  # pylint: disable=broad-except
-      bad = f'template was accepted at binding, but decode({d!r}) -> {type(e).__name__}: {str(e)[:200]}'
-    if bad:
-      break
+      return (f'template was accepted at binding, but decode({d!r}) -> '
+              f'{type(e).__name__}: {str(e)[:200]}')
+  return None
+
+
+# Ways of binding a placeholder `h` to the spec of field F of H.  Each returns
+# source text that leaves the bound template in `v` (or raises).
+BIND_ROUTES = [
+    ('constructor', 'v = H({f}=h)'),
+    ('rebind', 'v = H()\nv.rebind({f}=h)'),
+    ('typed-dict', "v = pg.Dict({f}=h, value_spec=pg.typing.Dict([('{f}', H.__schema__['{f}'].value)]))"),
+    ('typed-list', "v = pg.List([h], value_spec=pg.typing.List(H.__schema__['{f}'].value))"),
+]
+
+
+def _bind_retry(rec, case_id, field, psrc, routes, n_attempts=3):
+  """The same placeholder object is offered to a field several times.
+
+  Whatever the earlier attempts did (refused or accepted), a template that
+  exists afterwards must decode every DNA to a value its field accepts: a
+  refused bind must not leave a trace that lets a later bind through.
+  """
+  code = f'h = {psrc}\n'
+  env = dict(_env())
+  try:
+    exec(code, env)  # pylint: disable=exec-used
+  except Exception as e:  # pylint: disable=broad-except
+    rec.case(case_id, code, False, f'unexpected {type(e).__name__}: {e}', code)
+    return
+  history = []
+  for i in range(n_attempts):
+    rname, rsrc = routes[i % len(routes)]
+    step = rsrc.format(f=field)
+    code += f'try:\n  ' + step.replace('\n', '\n  ') + f'\n  ok{i} = True\nexcept (TypeError, ValueError, KeyError):\n  ok{i} = False\n'
+    env.pop('v', None)
+    try:
+      exec(step, env)  # pylint: disable=exec-used
+      accepted = True
+    except (TypeError, ValueError, KeyError):
+      accepted = False
+    except Exception as e:  # pylint: disable=broad-except
+      rec.case(case_id, code, False, f'unexpected {type(e).__name__}: {e}', code)
+      return
+    history.append(f'{rname}:' + ('accepted' if accepted else 'refused'))
+    if not accepted:
+      continue
+    v = env['v']
+    bad = _decodes_accepted(v, field, code)
+    wit = ('import pyglove as pg\nfrom bounded.c13_hyper import A, A2, B, H\n' + code
+           + 't = pg.template(v)\nfor d in t.dna_spec().iter_dna():\n'
+           '  x = t.decode(d)\n'
+           f"  x = x.sym_getattr('{field}') if isinstance(x, pg.Object) else x[0 if isinstance(x, list) else '{field}']\n"
+           f"  H.__schema__['{field}'].value.apply(pg.clone(x, deep=True))")
+    rec.case(case_id, code, bad is None,
+             f'attempts {history}: {bad}', wit)
+    if bad is not None:
+      return
+  if not any(h.endswith('accepted') for h in history):
+    rec.case(case_id, code, True)
+
+
+def _mutate_after_bind(rec, case_id, field, psrc, mutation):
+  """A placeholder is changed (symbolically) after it was bound to a field."""
+  code = f'v = H({field}={psrc})\n'
+  env = dict(_env())
+  try:
+    exec(code, env)  # pylint: disable=exec-used
+  except Exception as e:  # pylint: disable=broad-except
+    rec.case(case_id, code, False, f'unexpected {type(e).__name__}: {e}', code)
+    return
+  step = f'v.rebind({mutation!r})'
+  code += f'try:\n  {step}\nexcept (TypeError, ValueError, KeyError):\n  pass\n'
+  try:
+    exec(step, env)  # pylint: disable=exec-used
+  except (TypeError, ValueError, KeyError):
+    rec.case(case_id, code, True)      # refused: nothing happened.
+    # ... and the template still works.
+  except Exception as e:  # pylint: disable=broad-except
+    rec.case(case_id, code, False, f'unexpected {type(e).__name__}: {e}', code)
+    return
+  bad = _decodes_accepted(env['v'], field, code)
+  wit = ('import pyglove as pg\nfrom bounded.c13_hyper import A, A2, B, H\n' + code
+         + 't = pg.template(v)\nfor d in t.dna_spec().iter_dna():\n'
+         f"  H.__schema__['{field}'].value.apply(pg.clone(t.decode(d).sym_getattr('{field}'), deep=True))")
   rec.case(case_id, code, bad is None, bad, wit)
 
 
